@@ -36,6 +36,8 @@ pub enum Expr {
     Reduce(Box<Expr>, Box<Expr>, Box<Expr>),
     /// postfix reducers: $+ $* $&& $|| $& $| $]
     Post(&'static str, Box<Expr>),
+    /// `$+` / `$*` over an iterator of floats or strings (the element type decides the value for no elements)
+    Sum(&'static str, Ty, Box<Expr>),
     Len(Box<Expr>),
     /// `tkN(k, e)`: appends k to the log after evaluating e, yields e (N names the tick function of e's type)
     Tick(usize, i64, Box<Expr>),
@@ -220,7 +222,7 @@ impl Printer {
                 };
                 (format!("{} $ {} {fun}", self.at(it, L_ITER), self.at(init, L_PRIMARY)), L_ITER)
             }
-            Expr::Post(op, it) => (format!("{} {op}", self.at(it, L_ITER)), L_ITER),
+            Expr::Post(op, it) | Expr::Sum(op, _, it) => (format!("{} {op}", self.at(it, L_ITER)), L_ITER),
             Expr::Len(x) => (format!("std.len({})", self.at(x, 0)), L_POSTFIX),
             Expr::Tick(n, k, x) => (format!("tk{n}({k}, {})", self.at(x, 0)), L_POSTFIX),
             Expr::Module(body) => (format!("mod {{ {} }}", self.stmts(body)), L_PRIMARY),
@@ -348,7 +350,7 @@ pub fn count_literals_expr(e: &Expr) -> usize {
 pub fn walk_expr(e: &Expr, f: &mut dyn FnMut(&Expr)) {
     f(e);
     match e {
-        Expr::Neg(x) | Expr::Not(x) | Expr::Deref(x) | Expr::Iter(x) | Expr::Len(x) | Expr::Post(_, x) | Expr::Tick(_, _, x) => walk_expr(x, f),
+        Expr::Neg(x) | Expr::Not(x) | Expr::Deref(x) | Expr::Iter(x) | Expr::Len(x) | Expr::Post(_, x) | Expr::Sum(_, _, x) | Expr::Tick(_, _, x) => walk_expr(x, f),
         Expr::TupleAt(x, _) | Expr::Field(x, _) | Expr::TypeFilter(x, _) | Expr::MutNew(_, x) => walk_expr(x, f),
         Expr::Bin(_, a, b) | Expr::Repeat(a, b) | Expr::Index(a, b) | Expr::Assign(_, a, b) | Expr::Map(a, b) | Expr::Filter(a, b) | Expr::Partition(a, b) => {
             walk_expr(a, f);
